@@ -322,12 +322,17 @@ func c03Check(c C03Case) (r evid.Result) {
 				offsets[t] = true
 			}
 		} else {
-			for t := 0; t <= 600; t++ {
+			// (a stream of megabytes is decoded once per offset: fewer of them)
+			edge, around := 600, 9
+			if len(stream) > 256<<10 {
+				edge, around = 24, 2
+			}
+			for t := 0; t <= edge; t++ {
 				offsets[t] = true
 				offsets[len(stream)-t] = true
 			}
 			for _, s := range starts {
-				for dlt := -9; dlt <= 9; dlt++ {
+				for dlt := -around; dlt <= around; dlt++ {
 					if t := s + dlt; t >= 0 && t <= len(stream) {
 						offsets[t] = true
 					}
@@ -394,7 +399,15 @@ func c03GenMsg(t *rapid.T) (gen.BS, int) {
 		// line break. Rep+1 copies of a chunk whose length divides the size.
 		size := rapid.SampledFrom([]int{16384, 16384, 16383, 16385, 4096, 4095, 32768, 65536, 65535, 8192,
 			// ... and the sizes somebody may pick as "more than a frame can be": a record is as long as its header says
-			1 << 20, 1<<20 + 1, 1<<20 - 40, 2<<20 + 3}).Draw(t, "boundary-size")
+			1 << 20}).Draw(t, "boundary-size")
+		if size == 1<<20 {
+			// (rarely: such a record costs as much as a thousand ordinary cases)
+			if rapid.IntRange(0, 3).Draw(t, "megabyte") == 0 {
+				size = rapid.SampledFrom([]int{1 << 20, 1<<20 + 1, 1<<20 - 40, 2<<20 + 3}).Draw(t, "megabyte-size")
+			} else {
+				size = 16384
+			}
+		}
 		nl := rapid.Bool().Draw(t, "boundary-newline")
 		for _, chunk := range []int{64, 32, 16, 8, 5, 3, 1} {
 			if size%chunk == 0 {
